@@ -177,7 +177,31 @@ func rulePacketLiterals(c *Ctx, r *Report) {
 			r.Check(ok, rule, key, c.ipos(p.al), "alert encrypted iff the handshake completed", "alert packet's ShouldEncrypt does not follow handshake completion: "+c.describeAll(ls))
 			continue
 		case "", "dynamic":
-			r.Note(rule, key, c.ipos(p.al), "packet content not a literal here")
+			// a packet re-built from another packet must inherit that packet's protection flags
+			copied := false
+			if rec, has := p.fields["Record"]; has {
+				for _, l := range c.Origins(rec, 0) {
+					o, f, base, isLoad := fieldLoad(l)
+					if !isLoad || f != "Record" || !strings.HasSuffix(o, "flight.Packet") {
+						continue
+					}
+					copied = true
+					n++
+					for _, flag := range []string{"ShouldEncrypt", "ShouldWrapCID"} {
+						good := false
+						if fv, hasF := p.fields[flag]; hasF {
+							good = allLeaves(c.Origins(fv, 0), func(v ssa.Value) bool {
+								o2, f2, b2, ok2 := fieldLoad(v)
+								return ok2 && f2 == flag && o2 == o && sameValue(b2, base)
+							})
+						}
+						r.Check(good, rule, key+":copy:"+flag, c.ipos(p.al), "a packet re-built from another packet copies its "+flag, "a packet is re-built around another packet's record without copying "+flag+": the record is sent with the flag's zero value (in clear / without its connection ID) whatever the original packet required")
+					}
+				}
+			}
+			if !copied {
+				r.Note(rule, key, c.ipos(p.al), "packet content not a literal here")
+			}
 			continue
 		}
 		if !secret {
